@@ -118,7 +118,14 @@ def count_obligations(files):
 def prop_files(prop):
     """props/Cnn.v plus any props/Cnn<letter>.v (theorem files added later for the same property)."""
     d = os.path.join(COQ, "props")
-    return sorted(f[:-2] for f in os.listdir(d) if re.fullmatch(re.escape(prop) + r"[a-z]?\.v", f))
+    names = sorted(f[:-2] for f in os.listdir(d) if re.fullmatch(re.escape(prop) + r"[a-z]?\.v", f))
+    # theorem files still being written are kept out of the checks by listing them in .git/info/exclude
+    out = []
+    for n in names:
+        rc = subprocess.run(["git", "-C", VERIF, "check-ignore", "-q", "coq/props/%s.v" % n]).returncode
+        if rc != 0 or n == prop:
+            out.append(n)
+    return out
 
 
 def build(prop):
